@@ -149,6 +149,14 @@ impl Gen {
                                 }
                                 self.queue.push_back(IsoInput { target: t, data: x, origin: format!("{d} of {n}") });
                             }
+                            // pairs of large fields in the first 16 bytes, also cut right behind them
+                            for (d, x) in mutate::pair_sweep(&b, 16) {
+                                if x.len() > 16 {
+                                    self.queue.push_back(IsoInput { target: t, data: x[..16].to_vec(), origin: format!("{d}, cut to 16 bytes, of {n}") });
+                                    self.queue.push_back(IsoInput { target: t, data: x[..12].to_vec(), origin: format!("{d}, cut to 12 bytes, of {n}") });
+                                }
+                                self.queue.push_back(IsoInput { target: t, data: x, origin: format!("{d} of {n}") });
+                            }
                         }
                         if !self.queue.is_empty() {
                             return true;
